@@ -216,11 +216,11 @@ func (p *peer) myTurn() (quit bool, err error) {
 	}
 	if p.sc.FFFirst && !p.hadTurn {
 		p.hadTurn = true
-		p.ev(rec.Event{"op": "Offer", "ms": []string{}, "fw": []string{}})
+		p.ev(rec.Event{"op": "Offer", "ms": []string{}, "fw": []string{}, "lib": false})
 		return false, p.send("FF")
 	}
 	p.hadTurn = true
-	p.ev(rec.Event{"op": "Offer", "ms": mids, "fw": []string{}})
+	p.ev(rec.Event{"op": "Offer", "ms": mids, "fw": []string{}, "lib": false})
 	if len(pend) == 0 {
 		if p.libLastEmpty || (p.sc.EarlyFQ && p.libHadTurn) {
 			return true, p.send("FQ")
